@@ -427,13 +427,40 @@ def fp_face_job(lo_alt=30.0, hi_alt=40.0):
     return {"verdicts": verdicts, "queries": 1 + ok, "paths": 1, "solver_time": dt, "info": [{"transcription_checked_on": ok}]}
 
 
+def _geom_sampler(symbolic_det=False, generalised=True, sliced=False):
+    import math
+
+    def s(rng):
+        R = 6378.1
+        h = float(10 ** rng.uniform(0, 3.3))
+        r = R + h
+        aH = math.pi / 2 - math.acos(R / r)
+        limb = float(rng.uniform(0.05, 0.95) * aH)
+        v = {"det_alt": h, "limb": limb, "max_cher": float(rng.uniform(0.01, 1.2)), "max_az": float(rng.uniform(0.1, 2 * math.pi))}
+        if symbolic_det:
+            v["detLat"], v["detLong"] = float(rng.uniform(-1.4, 1.4)), float(rng.uniform(-3, 3))
+        aMin = aH - limb
+        Lmax = math.sqrt(r * r - R * R)
+        Lmin = r * math.cos(aMin) - math.sqrt(R * R - (r * math.sin(aMin)) ** 2)
+        if generalised:
+            v["Lmin"], v["Lmax"] = Lmin, Lmax
+        if sliced:
+            v["L"] = float(rng.uniform(Lmin, Lmax))
+        for k in range(1, 5):
+            v[f"u{k}_0"] = float(rng.uniform(0.01, 0.99))
+        return v
+
+    return s
+
+
 def job_init(tier):
-    return harness.run_job("RegionGeom.__init__ lemmas", init_lemmas_run(), timeout_ms=120000 if tier == "quick" else 600000, second=(tier == "thorough"))
+    return harness.run_job("RegionGeom.__init__ lemmas", init_lemmas_run(), timeout_ms=120000 if tier == "quick" else 600000, second=(tier == "thorough"),
+                           witness=(_geom_sampler(generalised=False), 10))
 
 
 def job_cubic(tier):
     return harness.run_job("throw: path-length sampling (cubic root selection)", cubic_run(), timeout_ms=120000 if tier == "quick" else 600000, second=(tier == "thorough"),
-                           prune_timeout_ms=4000)
+                           prune_timeout_ms=4000, witness=(_geom_sampler(), 40))
 
 
 def job_bracket(tier):
@@ -441,11 +468,13 @@ def job_bracket(tier):
 
 
 def job_spot(tier):
-    return harness.run_job("throw: ground spot (ENU -> ECEF)", spot_run(), timeout_ms=60000 if tier == "quick" else 600000, second=(tier == "thorough"), prune_timeout_ms=4000)
+    return harness.run_job("throw: ground spot (ENU -> ECEF)", spot_run(), timeout_ms=60000 if tier == "quick" else 600000, second=(tier == "thorough"), prune_timeout_ms=4000,
+                           witness=(_geom_sampler(symbolic_det=True, sliced=True), 20))
 
 
 def job_beta(tier):
-    return harness.run_job("throw: emergence angle and validity mask", beta_run(), timeout_ms=60000 if tier == "quick" else 600000, second=(tier == "thorough"), prune_timeout_ms=4000)
+    return harness.run_job("throw: emergence angle and validity mask", beta_run(), timeout_ms=60000 if tier == "quick" else 600000, second=(tier == "thorough"), prune_timeout_ms=4000,
+                           witness=(_geom_sampler(sliced=True), 20))
 
 
 def job_along(s_zero, tier):
